@@ -929,7 +929,13 @@ func init() {
 									return 1, 1, ""
 								}
 							}
-							return scale(d, depth+1)
+							if dv, dk, dw := scale(d, depth+1); dk != 0 {
+								return dv, dk, dw
+							}
+							if v, isVar := o.(*types.Var); isVar && !v.IsField() && isDur(v.Type()) {
+								return 1, 1, ""
+							}
+							return 0, 0, ""
 						}
 						// `d, ok := lt.Native.(time.Duration)`
 						found := false
@@ -944,6 +950,11 @@ func init() {
 							return true
 						})
 						if found {
+							return 1, 1, ""
+						}
+						// a duration obtained some other way (`d, lerr := durationArg(env, cell)`): a local of
+						// type time.Duration that is not computed in this function IS the nanosecond count
+						if v, isVar := o.(*types.Var); isVar && !v.IsField() && isDur(v.Type()) {
 							return 1, 1, ""
 						}
 						return 0, 0, ""
